@@ -382,10 +382,16 @@ class Server:
                 if isinstance(y, RemoteException):
                     y = y.exc
                 if not fut.cancelled():
-                    if isinstance(y, BaseException):
-                        fut.set_exception(y)
-                    else:
-                        fut.set_result(y)
+                    try:
+                        if isinstance(y, BaseException):
+                            fut.set_exception(y)
+                        else:
+                            fut.set_result(y)
+                    except concurrent.futures.InvalidStateError:
+                        # The requester has timed out (or its stream was closed)
+                        # and cancelled the future after the check above.
+                        # The late result is discarded.
+                        pass
                 fut.data['t2'] = perf_counter()
                 q_notify.put(1)
         finally:
